@@ -194,8 +194,9 @@ class WSStream:
     ) -> None:
         self.app = app
         self.access_logged = False
-        self.pongs: List[WSProtoEvent] = []
+        self.pongs: List[Union[WSProtoEvent, bytes]] = []
         self.sending_pongs = False
+        self.close_after_replies = False
         self.app_put: Optional[Callable] = None
         self.buffer = WebsocketBuffer(config.websocket_max_message_size)
         self.client = client
@@ -372,9 +373,22 @@ class WSStream:
                 try:
                     self.buffer.extend(event)
                 except FrameTooLargeError:
-                    await self._send_wsproto_event(
-                        CloseConnection(code=CloseReason.MESSAGE_TOO_BIG)
-                    )
+                    # Written as the pongs are (and after those owed), by
+                    # a task of its own so that the reading need not wait
+                    # for the client. Serialised here and now though, so
+                    # that nothing after it is delivered to the app.
+                    replies: List[Union[WSProtoEvent, bytes]] = []
+                    for reply in self.pongs + [CloseConnection(code=CloseReason.MESSAGE_TOO_BIG)]:
+                        try:
+                            replies.append(
+                                reply if isinstance(reply, bytes) else self.connection.send(reply)
+                            )
+                        except LocalProtocolError:
+                            pass
+                    self.pongs = replies
+                    if not self.sending_pongs:
+                        self.sending_pongs = True
+                        self.task_group.spawn(self._send_pongs)
                     break
 
                 if event.message_finished:
@@ -401,6 +415,10 @@ class WSStream:
                     if not self.sending_pongs:
                         self.sending_pongs = True
                         self.task_group.spawn(self._send_pongs)
+                elif self.sending_pongs:
+                    # The close this answers may itself still be waiting
+                    # to be written, the stream is closed after it has.
+                    self.close_after_replies = True
                 else:
                     await self.send(StreamClosed(stream_id=self.stream_id))
 
@@ -428,7 +446,11 @@ class WSStream:
         if isinstance(event, CloseConnection):
             while len(self.pongs) > 0 and not isinstance(self.pongs[0], CloseConnection):
                 # The pings that came before the close are still owed a pong
-                await self._send_wsproto_event(self.pongs.pop(0))
+                reply = self.pongs.pop(0)
+                if isinstance(reply, bytes):
+                    await self.send(Data(stream_id=self.stream_id, data=reply))
+                else:
+                    await self._send_wsproto_event(reply)
         try:
             data = self.connection.send(event)
         except LocalProtocolError:
@@ -480,9 +502,14 @@ class WSStream:
         try:
             while len(self.pongs) > 0 and not self.closed:
                 event = self.pongs.pop(0)
+                if isinstance(event, bytes):
+                    await self.send(Data(stream_id=self.stream_id, data=event))
+                    continue
                 await self._send_wsproto_event(event)
                 if isinstance(event, CloseConnection):
                     await self.send(StreamClosed(stream_id=self.stream_id))
+            if self.close_after_replies and not self.closed:
+                await self.send(StreamClosed(stream_id=self.stream_id))
         finally:
             self.sending_pongs = False
 
